@@ -117,6 +117,12 @@ def norm(t):
     if op in (".sum", "numpy.sum"):
         axis = kw.get("axis", a[1] if len(a) > 1 else None)
         return Term("sum", [a[0], axis])
+    # first differences that keep the first element: ediff1d(x, to_begin=x[0]) == diff(x, prepend=0) == diff(insert/concat 0)
+    if op == "numpy.ediff1d" and len(a) == 1 and isinstance(kw.get("to_begin"), Term) and kw["to_begin"] == Term("getitem", [a[0], Num.const(0)]) \
+            and set(kw) == {"to_begin"}:
+        return Term("fdiff", [a[0]])
+    if op == "numpy.diff" and len(a) == 1 and set(kw) == {"prepend"} and is_const(kw["prepend"], 0):
+        return Term("fdiff", [a[0]])
     if op in ("numpy.asarray", "numpy.array", "numpy.asanyarray") and not (kw.get("dtype") in ("int", "int64")):
         return a[0] if not isinstance(a[0], list) or True else a[0]
     return Term(op, a, kw)
@@ -245,6 +251,8 @@ def _check_call(ctx, fi, cp, P, L):
            nontrivial_key=("method", method))
     b = kw.get("bounds")
     okb, why = False, f"bounds={b!r}"
+    if isinstance(b, Term) and b.op == "*" and any(isinstance(x, list) for x in b.args):
+        b = next(x for x in b.args if isinstance(x, list))      # [(0, None)] * n: n copies of the listed elements
     if isinstance(b, list) and b:
         okb = all(isinstance(e, tuple) and len(e) == 2 and isinstance(e[0], Num) and e[0].is_const() and e[0].value() >= 0 for e in b)
         why = f"bounds elements {b!r}: every variable needs a lower bound >= 0"
@@ -322,7 +330,7 @@ def _check_report(ctx, fi, val, cp, b, ORDER, dl):
     W = None
     if args:
         W, dist_pre, deg = norm(args[0]), norm(args[1]), args[2]
-        want_pre = Term("/", [RX, Term("numpy.ediff1d", [W], {"to_begin": Term("getitem", [W, Num.const(0)])})])
+        want_pre = Term("/", [RX, Term("fdiff", [W])])
         okd = isinstance(dist_pre, Term) and dist_pre == want_pre and isinstance(deg, Term) and deg == ORDER and \
             args[3] in (None, Num.const(100)) and args[4] in (None, False)
         ctx.ob(okd, Finding("C18.K-report", fi.where, "distribution",
@@ -338,9 +346,10 @@ def _check_report(ctx, fi, val, cp, b, ORDER, dl):
     ok_out = isinstance(w_out, Term) and w_out == Term("bspline.x", key) and isinstance(d_out, Term) and d_out == Term("bspline.y", key)
     ctx.ob(ok_out, Finding("C18.K-report", fi.where, "returned-arrays", f"returned widths / distribution are {w_out!r} / {d_out!r}, not the smoother's outputs"),
            nontrivial_key=("out",))
-    want_cum = Term("numpy.cumsum", [Term("*", [d_out, Term("numpy.ediff1d", [w_out], {"to_begin": Term("getitem", [w_out, Num.const(0)])})])])
+    wn, dn = norm(w_out), norm(d_out)
+    want_cum = Term("numpy.cumsum", [Term("*", [dn, Term("fdiff", [wn])])])
     cumn = norm(cum)
-    okc = isinstance(cumn, Term) and (cumn == norm(want_cum) or cumn == Term("numpy.cumsum", [Term("*", list(reversed(norm(want_cum).args[0].args)))]))
+    okc = isinstance(cumn, Term) and (cumn == want_cum or cumn == Term("numpy.cumsum", [Term("*", list(reversed(want_cum.args[0].args)))]))
     ctx.ob(okc, Finding("C18.K-report", fi.where, "cumulative",
                         f"cumulative volume is {cum!r} on path {[(l, c) for l, c in dl if 'len' in l] or 'all'}; required cumsum(returned distribution * "
                         "ediff1d(returned widths, to_begin=returned widths[0]))"), nontrivial_key=("cum", tuple(c for l, c in dl)))
